@@ -494,8 +494,14 @@ class SessRunner(XRunner):
         r['session'] = {'outcome': outcome, 'final': fin, 'final_len': len(data), 'conn': cid, 'engine_len': englen}
         return r
 
+    pristine_every = 1        # every n-th reference answer comes from a pristine process, the others from this interpreter
+
     def new_reference(self, eng):
         reference()                                    # make sure the zygote exists before this process serves anything
+        self._nref = getattr(self, '_nref', 0) + 1
+        if self._nref % self.pristine_every:
+            return fork_engine(eng, self.ctx.work)
+        self.ctx.count('probe.reference_from_pristine_process')
         return RefHandle(copy_database(eng, self.ctx.work))
 
     def reference_exchange(self, handle, who, frame, ver):
@@ -546,7 +552,8 @@ class SessRunner(XRunner):
         if other is not None:
             try:
                 self.forks += 1
-                r2 = self.reference_exchange(other, who, BAD_FRAME, (1, 2))
+                r2 = (self.reference_exchange(other, who, BAD_FRAME, (1, 2)) if isinstance(other, RefHandle)
+                      else self.exchange(other, who, BAD_FRAME, (1, 2), False))
                 d = diff_answers(r, r2)
                 if d:
                     self.events.append({'ev': 'bad_frame', 'who': who, 'length': length, 'final': r['session']['final'],
@@ -663,6 +670,9 @@ class PristineReference:
     def __init__(self):
         import pickle, struct
         self.pickle, self.struct = pickle, struct
+        import sessdrv
+        for u in c07.USERS:                     # certificates are generated once and inherited by every reference process
+            sessdrv.make_cert([u], 'client')
         a_r, a_w = os.pipe()
         b_r, b_w = os.pipe()
         pid = os.fork()
@@ -720,12 +730,39 @@ class PristineReference:
 
     @staticmethod
     def _serve(job):
+        if job.get('kind') == 'fails':
+            # one candidate of the shrinker, run from pristine interpreter state (with reference processes of its own, forked
+            # before this process serves anything): does the last event still differ from its reference?
+            global REFERENCE
+            REFERENCE = None
+            reference()
+            eng = c07.new_engine(job['work'])
+            try:
+                run = SessRunner(c07.NullCtx(job['work']), eng, fork=False, slugs=job['slugs'])
+                run.pristine_every = 1
+                try:
+                    replay_events(run, job['events'][:-1])
+                    run.fork = True
+                    replay_events(run, job['events'][-1:])
+                except Exception:
+                    return None
+                return run.hits[0] if run.hits else None
+            finally:
+                eng.close()
+                REFERENCE.close()
         eng = kdrv.Engine(path=job['db'], policies=c07.build_policies(), clock=kdrv.FakeClock(job['t']))
         run = SessRunner(c07.NullCtx(os.path.dirname(job['db'])), eng, fork=False, slugs=job['slugs'])
         r = run.exchange(eng, job['who'], job['frame'], tuple(job['ver']), False)
         r = {k: v for k, v in r.items() if k != 'raw'}
         r['items'] = [{k: v for k, v in it.items() if k != 'raw'} for it in r['items']]
         return r, eng.dump()
+
+    def still_fails(self, events, slugs, work):
+        self._write(self.w, {'kind': 'fails', 'events': events, 'slugs': slugs, 'work': str(work)})
+        got = self._read(self.r)
+        if got is None or got[0] != 'ok':
+            raise RuntimeError('reference process failed: %r' % (got,))
+        return got[1]
 
     def answer(self, db, t, who, frame, ver, slugs):
         self._write(self.w, {'db': db, 't': t, 'who': who, 'frame': frame, 'ver': list(ver), 'slugs': slugs})
@@ -1117,6 +1154,25 @@ def slugs_scenarios():
     return [sc]
 
 
+def optional_field_scenarios():
+    """Over the wire: a request that carries an optional field, then (same or another connection) a request of the same
+    operation without it - the second must be read as if the first had never been sent."""
+    C = {'op': 'create', 'good': True, 'rich': True}
+    A = lambda k, t: {'op': 'addr', 'k': k, 'tgt': t}
+    sc = [('req', 0, (1, 2), False, [C], {}), ('req', 0, (1, 2), False, [C], {})]
+    for k in c07.KINDS:
+        v = (2, 0) if k == 'ASetAttribute' else (1, 2)
+        sc += [('req', 0, v, False, [A(k, ['ref', 0])], {}), ('req', 1, v, False, [A(k, None)], {}),
+               ('req', 0, v, True, [C, A(k, None)], {}), ('req', 0, v, False, [A(k, None)], {})]
+    sc += [('req', 0, (1, 2), False, [{'op': 'destroy', 'tgt': ['fresh', 5]}], {}), ('req', 0, (1, 2), False, [{'op': 'destroy', 'tgt': None}], {}),
+           ('req', 0, (1, 2), False, [{'op': 'locatep', 'ft': 'TOpaque', 'off': 1, 'mx': 1}], {}), ('req', 0, (1, 2), False, [{'op': 'locate'}], {}),
+           ('req', 1, (1, 2), False, [{'op': 'discover', 'vs': [[1, 0]]}], {}), ('req', 0, (1, 2), False, [{'op': 'discover', 'vs': []}], {}),
+           ('req', 0, (1, 2), False, [{'op': 'getwrapped', 'tgt': ['ref', 0], 'w': ['ref', 1]}], {}), ('req', 0, (1, 2), False, [A('AGet', ['ref', 0])], {}),
+           ('req', 0, (1, 2), False, [{'op': 'query', 'funcs': ['QUERY_OPERATIONS', 'QUERY_OBJECTS']}], {}),
+           ('req', 0, (1, 2), False, [{'op': 'query', 'funcs': ['QUERY_SERVER_INFORMATION']}], {})]
+    return [sc]
+
+
 def play_conn(run, script):
     for ev in script:
         if ev[0] == 'restart':
@@ -1155,6 +1211,18 @@ def gen_conn_history(ctx, rng, run, length):
                 w = whof(rng.choice([1, 2]))            # a custodian
             k = rng.choice(['AGet', 'AGet', 'AGetAttributes', 'AGetAttributeList'])
             run.request(w, ver, False, [{'op': 'addr', 'k': k, 'tgt': tgt}], **kw)
+        elif x < 0.66:                                 # an operation with its optional fields, then the same operation without them
+            ctx.count('pattern.optional_present_then_absent')
+            tgt = c07.gen_target(rng, tr, allow_none=False, dead_bias=0.05)
+            k = rng.choice(c07.KINDS)
+            v2 = (2, 0) if k == 'ASetAttribute' else ver
+            run.request(whof(c07.owner_of(tr, eng, tgt, rng) % 100 % nusers), v2, False, [{'op': 'addr', 'k': k, 'tgt': tgt}])
+            w2 = whof(rng.randrange(nusers))
+            if rng.random() < 0.5:
+                run.request(w2, v2, True, [c07.gen_create_spec(rng, tr, cheap=True), {'op': 'addr', 'k': k, 'tgt': None}])
+            else:
+                run.request(w2, v2, False, [{'op': 'addr', 'k': k, 'tgt': None}])
+            n += 1
         elif x < 0.70:
             run.request(who, ver, False, [{'op': 'locate'} if rng.random() < 0.5 else c07.gen_info_spec(rng)], **kw)
         elif x < 0.78:                                 # requests that end early, with a limit in the header
@@ -1210,9 +1278,16 @@ def replay_events(run, events):
                         asynchronous=ev.get('async'), undo=ev.get('undo', False), ids=ev.get('ids'), max_size=ev.get('max_size'))
 
 
-def shrink(ctx, events, runner=None):
-    """Drop prefix events (latest first) while the last request is still answered differently by live and fresh."""
+def shrink(ctx, events, runner=None, pristine_slugs=None):
+    """Drop prefix events (latest first) while the last request is still answered differently by live and fresh.
+    pristine_slugs (connection level): every candidate runs in a process of its own forked from the pristine zygote, because
+    state that lives in classes and modules would otherwise be carried from the run into the candidates."""
     def fails(evs):
+        if pristine_slugs is not None:
+            return reference().still_fails(evs, pristine_slugs, ctx.work)
+        return fails_here(evs)
+
+    def fails_here(evs):
         eng = c07.new_engine(ctx.work)
         try:
             run = (runner or XRunner)(c07.NullCtx(ctx.work), eng, fork=False)
@@ -1342,10 +1417,11 @@ def run(ctx):
     # ---- connection level: the same comparison with a real KmipSession per connection
     conn_cases, conn_hits = [], []
 
-    def one_conn(script=None, seed_name=None, length=0, slugs=False):
+    def one_conn(script=None, seed_name=None, length=0, slugs=False, pristine=None):
         eng = c07.new_engine(ctx.work)
         try:
             run_ = SessRunner(ctx, eng, slugs=slugs)
+            run_.pristine_every = (pristine or 3) if script is not None else 6
             if script is not None:
                 play_conn(run_, script)
             else:
@@ -1370,8 +1446,10 @@ def run(ctx):
     for sc in conn_scenarios():
         guarded(script=sc)
     for sc in slugs_scenarios():
-        guarded(script=sc, slugs=True)
-    for k in range(20 if quick else 150):
+        guarded(script=sc, slugs=True, pristine=1)
+    for sc in optional_field_scenarios():
+        guarded(script=sc, pristine=1)
+    for k in range(16 if quick else 150):
         guarded(seed_name='conn%d' % k, length=ctx.subrng('clen%d' % k).randrange(8, 30), slugs=(k % 2 == 1))
     ctx.count('probe.live_vs_fresh_comparisons_incl_connections', forks[0])
     ctx.log('ran %d connection-level histories, %d events' % (len(conn_cases), sum(len(e) for _, e in conn_cases)))
@@ -1387,8 +1465,7 @@ def run(ctx):
                             'on the live connection than on a new connection to a fresh engine on a copy of the same database')
         if k == 0:
             try:
-                import functools
-                got = shrink(ctx, w['history'], runner=functools.partial(SessRunner, slugs=bool(w.get('slugs'))))
+                got = shrink(ctx, w['history'], pristine_slugs=bool(w.get('slugs')))
                 if got is not None:
                     n0 = len(w['history'])
                     w = dict(got[1], shrunk_from=n0)
